@@ -376,9 +376,68 @@ def case_switch(case):
     return out, ("switch", nfit)
 
 
+def case_fitter(case):
+    """the fit is requested from IndentationFitter with keyword arguments,
+    on a curve that was never fitted"""
+    from nanite.fit import IndentationFitter
+    out = []
+    idnt, mk = make(case["curve"])
+    idnt.apply_preprocessing(["compute_tip_position"])
+    x0 = np.asarray(idnt["tip position"], dtype=float)
+    idnt["tip position"] = x0 - CP
+    seg = case["segment"]
+    x, s = seg_x(idnt, seg)
+    lo, hi = case["lo"], case["hi"]
+
+    def viol(clause, wit, detail):
+        out.append(V(PROP, clause, site="IndentationFitter", witness=wit,
+                     detail=detail, case=case, kind="fitter"))
+    try:
+        f = IndentationFitter(idnt, model_key=mk, segment=seg,
+                              range_x=[lo, hi], range_type="absolute",
+                              weight_cp=0)
+        f.fit()
+    except BaseException as e:
+        if isinstance(e, (KeyboardInterrupt, SystemExit, MemoryError)):
+            raise
+        viol("fit-raises", f"[{lo},{hi}]", repr(e))
+        return out, ("fitter-raises",)
+    mask = s & (x >= min(lo, hi)) & (x <= max(lo, hi)) if lo != hi else s
+    rng = np.asarray(f.fit_range).astype(bool)
+    if not np.array_equal(rng, mask):
+        viol("mask-absolute", f"seg={seg},[{lo},{hi}]", "IndentationFitter("
+             f"idnt, segment={seg}, range_x=[{lo}, {hi}]) fitted "
+             f"{int(rng.sum())} points ({int((rng & ~s).sum())} of another "
+             f"segment), the interval holds {int(mask.sum())}")
+    elif f.fp.get("success"):
+        for key, ref in (("xmin", x[mask].min()), ("xmax", x[mask].max())):
+            if not abs(f.fp[key] - ref) <= 4 * np.spacing(abs(ref)):
+                viol("xmin-xmax", key, f"{key}={f.fp[key]!r} vs {ref!r}")
+    if seg == 0:
+        ns = case["num_samples"]
+        try:
+            f2 = IndentationFitter(idnt, model_key=mk, segment=0,
+                                   weight_cp=0, optimal_fit_num_samples=ns)
+            e, d = f2.compute_emodulus_vs_mindelta()
+            if len(e) != ns or len(d) != ns:
+                viol("plateau-count", f"ns={ns}", f"{ns} samples requested, "
+                     f"scan arrays have {len(e)} / {len(d)} entries")
+        except BaseException as e:
+            if isinstance(e, (KeyboardInterrupt, SystemExit, MemoryError)):
+                raise
+            viol("fit-raises", f"scan:ns={ns}", repr(e))
+    return out, ("fitter", bool(f.fp.get("success")))
+
+
 def cases(tier):
     cs = []
     ks = [1.0, 0.5]
+    for curve in ("para", "cone"):
+        for seg in (0, 1):
+            for lo, hi in ((-5e-7, 5e-7), (4e-7, -6e-7), (-3e-7, np.inf),
+                           (0.0, 0.0)):
+                cs.append({"kind": "fitter", "curve": curve, "segment": seg,
+                           "lo": lo, "hi": hi, "num_samples": 12})
     for curve in ("para", "cone"):
         ids = sorted(SWITCH_CALLS)
         for n in (1, 2, 3):
@@ -412,7 +471,7 @@ def cases(tier):
         for k in ks:
             for ns in (7, 10, 25):
                 for lo, hi in ((-5e-7, 5e-7), (0.0, 8e-7), (-2e-7, np.inf),
-                               (3e-7, -1e-7)):
+                               (3e-7, -1e-7), (6e-7, 0.0)):
                     if tier == "quick" and ns == 25 and k == 0.5:
                         continue
                     cs.append({"kind": "plateau", "curve": curve, "k": k,
@@ -422,7 +481,8 @@ def cases(tier):
 
 def case_fn(case):
     return {"abs": case_abs, "rel": case_rel, "plateau": case_plateau,
-            "scan": case_scan, "switch": case_switch}[case["kind"]](case)
+            "scan": case_scan, "switch": case_switch,
+            "fitter": case_fitter}[case["kind"]](case)
 
 
 def replay(doc):
